@@ -330,8 +330,9 @@ func genC11(t *rapid.T) C11Case {
 
 func TestC11(t *testing.T) {
 	RunProperty(t, Property[C11Case]{
-		ID: "C11",
-		Rule: "rapid-generated trees as in C10 (one layout, exactly summable values, NaN holes) x destination per item absent / fresh / copy of the first source file / unrelated content / equal to the sum in every coarser archive only; windows and archive selection as in C08; at a controlled clock: sum-copy, then the destination of every item is compared slot by slot (NaN included) with an independently computed sum, created files must carry the requested header, sum-diff must be clean, a repeated sum-copy must not change a byte; then 0-3 destination slots are perturbed through the library and sum-diff must report 'diff found' iff some slot deviates and list exactly the deviating slots of the first item. Non-trivial: a pre-existing destination with >=1 equal and >=1 differing slot and >=1 NaN in the sum. Distinct = hash of the case.",
+		NoteCases:   true,
+		ID:          "C11",
+		Rule:        "rapid-generated trees as in C10 (one layout, exactly summable values, NaN holes) x destination per item absent / fresh / copy of the first source file / unrelated content / equal to the sum in every coarser archive only; windows and archive selection as in C08; at a controlled clock: sum-copy, then the destination of every item is compared slot by slot (NaN included) with an independently computed sum, created files must carry the requested header, sum-diff must be clean, a repeated sum-copy must not change a byte; then 0-3 destination slots are perturbed through the library and sum-diff must report 'diff found' iff some slot deviates and list exactly the deviating slots of the first item. Non-trivial: a pre-existing destination with >=1 equal and >=1 differing slot and >=1 NaN in the sum. Distinct = hash of the case.",
 		Assumptions: []string{"Z5: sum-diff with a missing side is not asserted", "cases whose item or file pattern matches nothing are C10's (discarded here)"},
 		Gen:         genC11,
 		Run:         runC11,
